@@ -91,6 +91,14 @@ claim("C08",
       "Trusted: the regex reader of the script; the meaning of the DDL itself (no PostgreSQL server is available to execute it).",
       "Coq proof (characterisation of the schema model) + parsed-DDL correspondence", "DESIGN.md §5 C08")
 
+claim("C16",
+      "Coq model of the directive pipeline with the regular expressions written as scanners (special comments, _SELECT KEY exclusion, REFERENCES rewrite, whole-word table-name replacement, #[Type.Const] substitution by SQL literals, guard constraints, QUERY placeholder numbering and rewriting) "
+      "and theorems: the tokenisation is a partition of the text and only whole words naming a table struct change; ADD constraints are attached to the table they are computed for; placeholder names are numbered injectively, equal names sharing a number, one Go argument per distinct name, each a column. "
+      "Tied to /repo by comparing the constraint section of the real SQL script and the custom-query functions parsed from the real CRUD file with the model, for corpus and synthesised model files; "
+      "ownership of directives (single / grouped declarations, neighbours) is checked against the syntax tree read independently; argument types against the compared field's declared type.",
+      "Trusted: regex readers of the two outputs; the scanners are validated only through these end-to-end comparisons (no per-regex hook). Reading fixed: a placeholder is numbered at its first occurrence in a comparison 'field = $name$'.",
+      "Coq proof (tokenisation / numbering lemmas) + constraint-section and custom-query correspondence + syntax-tree ownership oracle", "DESIGN.md §5 C16")
+
 NOT_YET = "check not built yet in this round (planned, see DESIGN.md §6)"
 
 checks, na = [], []
